@@ -10,7 +10,9 @@ RULE = ("the C01 case set (complete small layer + seeded-random documents x guid
         "[n] and as bare key, and every slice bound pair in -9..9 (361 pairs), on sequences of length 0..4 (root, nested under a key, "
         "and Array-of-Hashes slices followed by a key).  Direct check on every query (required, exists, optional, dot and slash "
         "notation): the exception type escaping Processor.get_nodes()/exists() is in the YAMLPathException family (10 s timeout "
-        "per query counts as a violation).  Correspondence: the error class equals the Lean model's.  "
+        "per query counts as a violation).  Additionally 20 000 (thorough: 300 000) seeded-random collector paths "
+        "(1-3 operands joined by + - &, optional trailing segment) whose operands select scalars only are checked the same way "
+        "(collectors are outside the Lean model; crashes with non-scalar operands are counted, not judged).  Correspondence: the error class equals the Lean model's.  "
         "distinct_nontrivial = distinct (document, path) whose required query returns at least one node.")
 
 
@@ -52,4 +54,21 @@ def run(chk: core.Check):
     jobs = c01.build_jobs(chk, opts, nrand_quick=60000, grid=True)
     chk.extra_cov["bound_grid"] = "indexes and slice bounds -9..9 (all 361 pairs) on sequences of length 0..4"
     absorb15(chk, core.pmap(ev.compare_chunk, jobs))
+    # collectors: outside the evaluator model; the exception type of the real queries is checked directly
+    import random as _r
+    rng = _r.Random(chk.seed + 15)
+    ncoll = 20000 if chk.tier == "quick" else 300000
+    cc = []
+    for _ in range(ncoll):
+        d = ev.random_doc(rng, rng.choice([6, 10, 15]))
+        operands, text = ev.random_collector(rng)
+        cc.append((d, operands, text))
+    cc = c01.subsample(chk, cc)
+    for stats, viol in core.pmap(ev.collector_chunk, [(c, opts) for c in core.chunked(cc, 64)]):
+        chk.evaluations += stats["n"]
+        chk.out_of_model += stats["n"]
+        for k, v in stats.items():
+            chk.count("collector:" + k, v)
+        for sig, w, case in viol:
+            chk.violation(sig, w, case)
     return chk
